@@ -98,6 +98,8 @@ def gen_world(rng, i, tier):
     glob = rng.pick([None, None, [".d"], [".conf.d", ".d"]])
     cfg = gen.io_cfg(rng)
     cfg["cwd"] = "$ROOT"
+    if rng.chance(0.25):
+        cfg["locale"] = "xx_XX"       # the application has chosen a locale whose decimal point is ',' (process-wide state)
     # a quarter of the joint runs are the first thing a new process does: whatever the library sets up lazily on
     # first use is then set up under the seeded scheduler
     fresh = rng.chance(0.25)
